@@ -6,7 +6,7 @@
    configurations carried over, interpolators exchanged freely) is what props/c05.py compares with the
    real converting constructors, storage contents included. *)
 From Coq Require Import ZArith List Bool.
-From Covfie Require Import Layout LayoutMem NdMap Relayout.
+From Covfie Require Import Layout LayoutMem NdMap Stack Relayout Convert ConvertProofs.
 Import ListNotations.
 Local Open Scope Z_scope.
 
@@ -33,5 +33,29 @@ Proof. exact relayout_frame. Qed.
 Theorem C05_loop_visits_the_box : forall s c, in_box (map Z.of_nat s) c <-> In c (box_coords s).
 Proof. exact in_box_coords. Qed.
 
+(* the EXECUTABLE list-level conversion (the one compared with the real converting constructors) is that
+   loop: the cell of every in-range coordinate in the list it produces is the source's cell *)
+Theorem C05_executable_conversion_preserves_cells : forall (m : nat) (L1 L2 : layout) (s : list nat) (src : list Z) (cap2 : nat),
+  (forall c, dom L1 c <-> in_box (map Z.of_nat s) c) -> (forall c, dom L2 c <-> in_box (map Z.of_nat s) c) ->
+  (forall c, dom L1 c -> 0 <= idx L1 c /\ ((Z.to_nat (idx L1 c) + 1) * m <= length src)%nat) ->
+  (forall c, dom L2 c -> 0 <= idx L2 c < Z.of_nat cap2) ->
+  forall c, in_box (map Z.of_nat s) c ->
+  get_cell m (loop_list m L1 L2 src (box_coords s) (repeat 0 (cap2 * m))) (idx L2 c) = get_cell m src (idx L1 c).
+Proof. exact convert_preserves_cells. Qed.
+Theorem C05_relayout_list_is_that_loop : forall (m : nat) (l1 l2 : layer) (sizes data : list Z) (L1 L2 : layout),
+  (forall c, idx L1 c = layer_index l1 sizes c) -> (forall c, idx L2 c = layer_index l2 sizes c) ->
+  relayout_list m l1 l2 sizes data =
+  loop_list m L1 L2 data (box_coords (map Z.to_nat sizes)) (repeat 0 (Z.to_nat (layer_cap l2 sizes) * m)).
+Proof. exact relayout_list_is_loop. Qed.
+(* end to end on Convert.relayout_list: row-major -> Hilbert, every extent vector *)
+Theorem C05_rowmajor_to_hilbert : forall (m sx sy : nat) (tc tc' : sty) (data : list Z),
+  length data = (sx * sy * m)%nat ->
+  forall c, in_box [Z.of_nat sx; Z.of_nat sy] c ->
+  get_cell m (relayout_list m (LStrided 2 tc) (LHilbert tc') [Z.of_nat sx; Z.of_nat sy] data) (layer_index (LHilbert tc') [Z.of_nat sx; Z.of_nat sy] c)
+  = get_cell m data (layer_index (LStrided 2 tc) [Z.of_nat sx; Z.of_nat sy] c).
+Proof. exact convert_rowmajor_to_hilbert. Qed.
+
 Print Assumptions C05_relayout_preserves.
+Print Assumptions C05_executable_conversion_preserves_cells.
+Print Assumptions C05_rowmajor_to_hilbert.
 Print Assumptions C05_relayout_back.
